@@ -126,6 +126,9 @@ class DirectMethod:
         self.add_variables(stage, self.opti)
         self.add_parameters(stage, self.opti)
 
+        for grid, constraints in stage._constraints.items():
+            if grid!="point" and len(constraints)>0:
+                raise Exception("A stage without a transcription method can only carry point constraints; found a constraint on grid '%s' (it depends on time or on another signal of this stage)" % grid)
         for c, m, _ in stage._constraints["point"]:
             self.opti.subject_to(self.eval_top(stage, c), meta = m)
         self.opti.add_objective(self.eval_top(stage, stage._objective))
